@@ -1,7 +1,7 @@
 (* C07 — Conversions, copies, transposes and sums preserve the represented operator.
    Property-level theorems only; each is closed by a lemma from Sparse/*Proofs.v.
    `den_X A i j` is the sum of all stored values of A at (i,j): the operator A represents. *)
-From Raptor Require Import Base.Sums Sparse.Defs Sparse.ConvertProofs Sparse.SortProofs Sparse.Block Sparse.BlockProofs Sparse.BlockConvProofs.
+From Raptor Require Import Base.Sums Sparse.Defs Sparse.ConvertProofs Sparse.SortProofs Sparse.Block Sparse.BlockProofs Sparse.BlockConvProofs Sparse.BlockDedupProofs.
 
 Section C07.
 Variable F : Type.
@@ -196,6 +196,24 @@ Proof.
   apply (dims_block_transposes F zero).
 Qed.
 
+(* block remove_duplicates (BSR / BSC; the scalar routine at blocks with entrywise addition): the blocks stored at a block
+   position are merged; the represented operator is unchanged except that a merged block for which the routine's
+   smallness test (abs_val(block) < zero_tol) holds is discarded as a whole.  Blocks have b_rows * b_cols = n entries. *)
+Theorem C07_block_remove_duplicates (bsmall : list F -> bool) br bc n I J r c (B : csr (list F)) (C : csc (list F)) :
+  r < br -> c < bc ->
+  (forall row, In row (csr_rows B) -> forall q, In q row -> length (snd q) = n) ->
+  (forall col, In col (csc_cols C) -> forall q, In q col -> length (snd q) = n) ->
+  let i := I * br + r in let j := J * bc + c in
+  bdenCsr br bc (csr_remove_duplicates (list F) (vadd add) bsmall B) i j
+    = (if bsr_discarded F add bsmall I J B then zero else bdenCsr br bc B i j) /\
+  bdenCsc br bc (csc_remove_duplicates (list F) (vadd add) bsmall C) i j
+    = (if bsc_discarded F add bsmall I J C then zero else bdenCsc br bc C i j).
+Proof.
+  intros Hr Hc HB HC i j. split.
+  - apply (bden_csr_remove_duplicates F zero one add mul sub opp Fth bsmall br bc n I J r c Hr Hc B HB).
+  - apply (bden_csc_remove_duplicates F zero one add mul sub opp Fth bsmall br bc n I J r c Hr Hc C HC).
+Qed.
+
 End C07.
 
 Print Assumptions C07_coo_to_csr.
@@ -216,3 +234,4 @@ Print Assumptions C07_bsr_to_csr.
 Print Assumptions C07_block_conversions.
 Print Assumptions C07_block_sort_move_diag.
 Print Assumptions C07_block_transposes.
+Print Assumptions C07_block_remove_duplicates.
